@@ -150,7 +150,7 @@ def judge(c):
         if _enum[0] and not c.nested:
             LOG.counters['nontrivial_in_scope'] += 1
         elif nk.n > 3 or height(g) > 2 or c.nested:
-            LOG.mark_nontrivial((nk.key(), t))
+            LOG.mark_nontrivial((nk.key(), t), PROP)
 
 
 # ---- tableau diagnostics -------------------------------------------------
